@@ -94,7 +94,7 @@ Print Assumptions chunks_sizes.
    split over groups *)
 Theorem import_independent_of_grouping : forall limit strict gs gs' t,
   concat gs = concat gs' -> handle_groups limit strict gs t = handle_groups limit strict gs' t.
-Proof. intros. rewrite !handle_groups_concat. congruence. Qed.
+Proof. exact import_independent_of_grouping_all. Qed.
 Print Assumptions import_independent_of_grouping.
 
 (* parquet (every table is written): export with ANY group size, regenesis = the same state
